@@ -80,11 +80,15 @@ where
         // Rewind and truncate the file
         file.rewind().await?;
         file.set_len(0).await?;
+        #[cfg(sos_verif)]
+        sos_core::verif::crash_point("fs.vault.header.after-truncate");
 
         let mut guard = file.lock_write().await.map_err(|e| e.error)?;
 
         // Write out the header
         guard.write_all(&head).await?;
+        #[cfg(sos_verif)]
+        sos_core::verif::crash_point("fs.vault.header.after-head");
 
         // Write out the content
         guard.write_all(&content).await?;
@@ -123,6 +127,8 @@ where
             // Rewind and truncate the file to the head
             guard.rewind().await?;
             guard.inner_mut().set_len(head.end).await?;
+            #[cfg(sos_verif)]
+            sos_core::verif::crash_point("fs.vault.splice.after-truncate");
         } else {
             unreachable!("file splice head range always starts at zero");
         }
@@ -134,6 +140,8 @@ where
         if let Some(content) = content {
             guard.write_all(content).await?;
         }
+        #[cfg(sos_verif)]
+        sos_core::verif::crash_point("fs.vault.splice.after-content");
 
         // Write out the end portion
         guard.write_all(&end).await?;
